@@ -150,6 +150,7 @@ type litBuilder struct {
 	skipped string
 	pre     []string // statements to run before the call (slice construction)
 	nvar    int
+	bufs    map[string]string
 }
 
 func (lb *litBuilder) need(term string) { lb.ask = append(lb.ask, term) }
@@ -178,7 +179,7 @@ func (lb *litBuilder) collect(v Val, t types.Type, depth int) {
 			lb.need(f.S)
 		}
 		if v.Elem != nil {
-			for k := 0; k < 4; k++ {
+			for k := 0; k < 8; k++ {
 				ev := c.readElem(c.entry, v.Elem, v.ref(), sx("+", v.off(), strconv.Itoa(k)))
 				lb.collect(ev, v.Elem, depth-1)
 			}
@@ -248,7 +249,7 @@ func (lb *litBuilder) build(v Val, t types.Type, depth int) string {
 		if ref == 0 {
 			return tn + "(nil)"
 		}
-		if cp > 4096 || ln > 4 {
+		if cp > 4096 || ln > 8 {
 			// element values beyond index 3 were not requested: fill with defaults
 			if cp > 1<<16 {
 				lb.skipped = "model needs a very large allocation"
@@ -256,11 +257,20 @@ func (lb *litBuilder) build(v Val, t types.Type, depth int) string {
 			}
 		}
 		sl := v.Elem
-		lb.nvar++
-		name := fmt.Sprintf("gvcBuf%d", lb.nvar)
 		et := qual(c, sl)
-		lb.pre = append(lb.pre, fmt.Sprintf("%s := make([]%s, %d)", name, et, off+cp))
-		for k := int64(0); k < ln && k < 4; k++ {
+		if lb.bufs == nil {
+			lb.bufs = map[string]string{}
+		}
+		bkey := fmt.Sprintf("%d/%s", ref, et)
+		name, shared := lb.bufs[bkey]
+		if !shared {
+			lb.nvar++
+			name = fmt.Sprintf("gvcBuf%d", lb.nvar)
+			lb.bufs[bkey] = name
+			// slices with the same reference share one backing array (asize = off+cap for each)
+			lb.pre = append(lb.pre, fmt.Sprintf("%s := make([]%s, %d)", name, et, off+cp))
+		}
+		for k := int64(0); k < ln && k < 8; k++ {
 			ev := c.readElem(c.entry, v.Elem, v.ref(), sx("+", v.off(), strconv.FormatInt(k, 10)))
 			lb.pre = append(lb.pre, fmt.Sprintf("%s[%d] = %s", name, off+k, lb.build(ev, v.Elem, depth-1)))
 		}
@@ -506,6 +516,8 @@ func gvcEdiv(a, b int) int { return (a - gvcEmod(a, b)) / b }
 func gvcIsNil(x interface{}) bool { if x == nil { return true }; v := reflect.ValueOf(x); switch v.Kind() { case reflect.Slice, reflect.Ptr, reflect.Map, reflect.Func, reflect.Interface: return v.IsNil() }; return false }
 func gvcEval(name string, f func() bool) { ok := false; func() { defer func() { if r := recover(); r != nil { fmt.Printf("GVC-REPLAY oracle-panic clause=%s %v\n", name, r) } }(); ok = f() }(); fmt.Printf("GVC-REPLAY clause=%s ok=%v\n", name, ok) }
 func gvcSame(a, b interface{}) bool { return reflect.DeepEqual(a, b) }
+func gvcSpan(x interface{}) (uintptr, uintptr, bool) { v := reflect.ValueOf(x); if v.Kind() != reflect.Slice || v.IsNil() || v.Cap() == 0 { return 0, 0, false }; full := v.Slice3(0, v.Cap(), v.Cap()); lo := full.Pointer(); return lo, lo + uintptr(full.Len())*v.Type().Elem().Size(), true }
+func gvcFresh(inputs []interface{}, x interface{}) bool { lo, hi, ok := gvcSpan(x); if !ok { return true }; for _, in := range inputs { l2, h2, ok2 := gvcSpan(in); if ok2 && lo < h2 && l2 < hi { return false } }; return true }
 func gvcSnap(x interface{}) interface{} { v := reflect.ValueOf(x); if v.Kind() != reflect.Slice || v.IsNil() { return x }; full := v.Slice3(0, v.Cap(), v.Cap()); c := reflect.MakeSlice(v.Type(), full.Len(), full.Len()); reflect.Copy(c, full); return c.Interface() }
 func gvcFull(x interface{}) interface{} { v := reflect.ValueOf(x); if v.Kind() != reflect.Slice || v.IsNil() { return x }; return v.Slice3(0, v.Cap(), v.Cap()).Interface() }
 `
@@ -558,7 +570,7 @@ func (e *Engine) replay(o *Obligation, dir string) (string, string) {
 	confirmed := false
 	for _, l := range strings.Split(out, "\n") {
 		if strings.HasPrefix(l, "GVC-REPLAY") {
-			doc.Observed = append(doc.Observed, strings.TrimSpace(strings.TrimPrefix(l, "GVC-REPLAY")))
+			doc.Observed = append(doc.Observed, trimOut(strings.TrimSpace(strings.TrimPrefix(l, "GVC-REPLAY")), 400))
 			if strings.Contains(l, "panic=") || strings.Contains(l, "ok=false") {
 				confirmed = true
 			}
@@ -620,6 +632,22 @@ func (e *Engine) buildReplayTest(o *Obligation, t *Target, lits map[string]strin
 				ask = append(ask, a)
 			}
 		}
+		// prefer a small model: bound the dimensions of slice parameters first
+		var small []string
+		var bound func(v Val)
+		bound = func(v Val) {
+			switch v.K {
+			case KSlice:
+				small = append(small, sx("<=", v.ln(), "6"), sx("<=", v.cp(), "8"), sx("<=", v.off(), "3"))
+			case KStruct, KArray:
+				for _, f := range v.F {
+					bound(f)
+				}
+			}
+		}
+		for _, p := range prms {
+			bound(p.v)
+		}
 		// the collect step may have declared observers after o.NCmds: extend the prefix
 		saved := o.NCmds
 		if len(c.cmds) > n0 {
@@ -627,14 +655,20 @@ func (e *Engine) buildReplayTest(o *Obligation, t *Target, lits map[string]strin
 			o2 := *o
 			o2.ctx = &FnCtx{cmds: append(append([]string(nil), c.cmds[:o.NCmds]...), c.cmds[n0:]...)}
 			o2.NCmds = len(o2.ctx.cmds)
-			vals, ok := getValues(&o2, ask, nil, 20)
+			vals, ok := getValues(&o2, ask, small, 10)
+			if !ok {
+				vals, ok = getValues(&o2, ask, nil, 20)
+			}
 			o.NCmds = saved
 			if !ok {
 				return nil, "", "could not re-obtain a model for value extraction"
 			}
 			lb.vals = vals
 		} else {
-			vals, ok := getValues(o, ask, nil, 20)
+			vals, ok := getValues(o, ask, small, 10)
+			if !ok {
+				vals, ok = getValues(o, ask, nil, 20)
+			}
 			if !ok {
 				return nil, "", "could not re-obtain a model for value extraction"
 			}
@@ -703,6 +737,11 @@ func (e *Engine) buildReplayTest(o *Obligation, t *Target, lits map[string]strin
 	for _, s := range snap {
 		fmt.Fprintf(body, "\tgvcFull_%s := gvcSnap(%s)\n", s, s)
 	}
+	fmt.Fprintf(body, "\tgvcInputs := []interface{}{")
+	for _, s := range snap {
+		fmt.Fprintf(body, "%s, ", s)
+	}
+	fmt.Fprintf(body, "}\n\t_ = gvcInputs\n")
 	if len(resNames) > 0 {
 		fmt.Fprintf(body, "\t%s := %s(%s)\n", strings.Join(resNames, ", "), callee, strings.Join(args, ", "))
 		for _, r := range resNames {
